@@ -66,6 +66,8 @@ def run(ctx):
     mods = ["TomlVerif.Props.C09", "driver"]
     lake_build(ctx, mods, {"TomlVerif.Props.C09": "property theorems"})
     audit(ctx, "TomlVerif.Props.C09", "TomlVerif/Props/C09.lean")
+    lake_build(ctx, ["TomlVerif.Props.C09Equiv"], {"TomlVerif.Props.C09Equiv": "T09_equiv: state machine accepts iff the definition rules say valid (all statement sequences outside U1)"})
+    audit(ctx, "TomlVerif.Props.C09Equiv", "TomlVerif/Props/C09Equiv.lean")
     if ctx.tier == "thorough":
         leanchecker(ctx, "TomlVerif.Props.C09")
     tvh = cargo_build(ctx)
